@@ -25,6 +25,7 @@ type batchCase struct {
 	callCase
 	Reply   string    `json:"reply"` // exact subset params-changed superset
 	Extra   *aval.V   `json:"extra,omitempty"`
+	ExtraIn string    `json:"extra_in,omitempty"` // results (default) | errors
 	Dropped []int     `json:"dropped,omitempty"`
 	NewPars []*aval.V `json:"new_params,omitempty"`
 }
@@ -70,6 +71,9 @@ func isComplexKey(t schema.Type) bool {
 func genKeyMultiset(rt *rapid.T, g *aval.Gen, mi *dyn.MethodInfo) []*aval.V {
 	kt := *mi.KeyType
 	n := rapid.IntRange(1, 5).Draw(rt, "nkeys")
+	if rapid.IntRange(0, 7).Draw(rt, "many_keys") == 0 {
+		n = rapid.IntRange(9, 14).Draw(rt, "nkeys_many") // beyond any small-set fast path of a key set
+	}
 	var keys []*aval.V
 	for i := 0; i < n; i++ {
 		var k *aval.V
@@ -216,7 +220,11 @@ func checkBatch(rec *stats.Recorder, c batchCase) (msg string, known string) {
 				o.Results = append(o.Results, kv)
 			}
 		}
-		if c.Reply == "superset" && c.Extra != nil && ident[keyIdentity(kt, c.Extra)] == 0 {
+		if c.Reply == "superset" && c.Extra != nil && ident[keyIdentity(kt, c.Extra)] == 0 && c.ExtraIn == "errors" {
+			// the unrequested key is mentioned in the errors map only
+			st := int32(500)
+			o.Errors = append(o.Errors, dyn.KV{K: c.Extra, Err: &dyn.ErrM{Status: &st, Message: sp("unrequested")}})
+		} else if c.Reply == "superset" && c.Extra != nil && ident[keyIdentity(kt, c.Extra)] == 0 {
 			kv := dyn.KV{K: c.Extra, Status: 299}
 			if mi.Rest() == "batch_get" {
 				kv.V = aval.Zero(S, *mi.Entity)
@@ -463,6 +471,9 @@ func TestC16Batch(t *testing.T) {
 			c.Extra = genKey(rt, g, *mi.KeyType)
 			if collidingExtra != nil {
 				c.Extra = collidingExtra
+			}
+			if rapid.IntRange(0, 2).Draw(rt, "extra_in_errors") == 0 {
+				c.ExtraIn = "errors"
 			}
 		case "params-changed":
 			if isComplexKey(*mi.KeyType) {
